@@ -74,10 +74,23 @@ def impl_cxn(slide, case):
         return "%d,%d,%d,%d,%d,%d,%d,%d,%d,%d" % (e.x, e.cx, int(e.flipH), e.y, e.cy, int(e.flipV),
                                                  c.begin_x, c.begin_y, c.end_x, c.end_y)
 
+    import zlib
+    respell = zlib.crc32(repr(case).encode()) % 3 == 0
+
+    def foreign_spelling():
+        # xsd:boolean as other producers spell it: flipH="true" / flipV="false" (the library writes "1" / "0")
+        for x in e.xpath(".//a:xfrm"):
+            for a in ("flipH", "flipV"):
+                if x.get(a) in ("1", "0"):
+                    x.set(a, "true" if x.get(a) == "1" else "false")
+    if respell:
+        foreign_spelling()
     outs = [snap()]
     reads = [(c.begin_x, c.begin_y, c.end_x, c.end_y)]
     for k, v in ops:
         setattr(c, {"bx": "begin_x", "by": "begin_y", "ex": "end_x", "ey": "end_y"}[k], v)
+        if respell:
+            foreign_spelling()
         outs.append(snap())
         reads.append((c.begin_x, c.begin_y, c.end_x, c.end_y, c.width, c.height))
     e.getparent().remove(e)
